@@ -180,6 +180,10 @@ fn call(entry: &str, data: &[u8]) -> Outcome {
                         let _ = sk.decrypt(&ct, false, Sm2Model::C1C3C2);
                     }
                     // message lengths on the KDF block boundary, and the compressed / other-order forms
+                    // the empty message has no ciphertext: an error, not a panic
+                    let _ = pk.encrypt(b"", false, Sm2Model::C1C3C2);
+                    let _ = pk.encrypt_asn1(b"", true, Sm2Model::C1C2C3);
+                    let _ = sk.sign(Some(""), b"");
                     for l in [1usize, 32, 64] {
                         if let Ok(ct) = pk.encrypt(&vec![0x61u8; l], true, Sm2Model::C1C2C3) {
                             let _ = sk.decrypt(&ct, true, Sm2Model::C1C2C3);
@@ -564,7 +568,7 @@ pub fn run(ctx: &Arc<Ctx>) {
     refmodels::selftest::run(&["sm3", "sm2", "sm9"]).unwrap_or_else(|e| ctx.machinery_error(format!("reference self-test failed: {}", e)));
     let cs = Arc::new(cases(ctx.tier, ctx.seed));
     let limit = Duration::from_secs(ctx.tier.pick(5, 10));
-    ctx.set_rule("entry points: SM2 verify (signature and message), raw decryption (2 orders x 2 encodings), ASN.1 decryption, public/private key decoders for bytes, hex, DER and PEM, SM4 cipher construction, block encrypt/decrypt, mode construction and mode decryption (data and IV), SM9 decryption, SM9 verification (h and S from bytes, affine / Jacobian / infinity), identities of every length 0..=300 through SM9 decryption / verification / extraction and SM2 verification, mod_n_from_hash, the SM2 KDF, and (the property's anchors name eea.rs / eia.rs) ZUC / EEA3 / EIA3 construction from key and IV bytes and message buffers shorter than LENGTH; per byte-string parameter every length 0..=200 (0..=400 for SM9 decryption) x {0x00, 0xFF, seeded}; for each valid encoding (SM2 / SM9 ciphertexts also with a body of 32 and 64 bytes, the KDF block boundary) every truncation, every single-byte corruption (4 kinds per position) and trailing bytes; hex strings of every length 0..=140 and a non-hex character at every position; PEM truncations and corruptions; boundary private keys {0,1,n-2,n-1,n,2^256-1}: whatever the constructor accepts must sign, encrypt (also 32- and 64-byte messages), decrypt and run a key agreement to completion; SM9 encrypt / sign / exchange with valid keys over lengths {1,31,32,33,64,96,128,255}. Each call runs in a child process under panic capture and a wall-clock watchdog. Oracle: outcome in {Ok, Err}; panic, overflow, abort and time-out are violations (whether an Ok was deserved is judged by C04/C06/C07/C19).");
+    ctx.set_rule("entry points: SM2 verify (signature and message), raw decryption (2 orders x 2 encodings), ASN.1 decryption, public/private key decoders for bytes, hex, DER and PEM, SM4 cipher construction, block encrypt/decrypt, mode construction and mode decryption (data and IV), SM9 decryption, SM9 verification (h and S from bytes, affine / Jacobian / infinity), identities of every length 0..=300 through SM9 decryption / verification / extraction and SM2 verification, mod_n_from_hash, the SM2 KDF, and (the property's anchors name eea.rs / eia.rs) ZUC / EEA3 / EIA3 construction from key and IV bytes and message buffers shorter than LENGTH; per byte-string parameter every length 0..=200 (0..=400 for SM9 decryption) x {0x00, 0xFF, seeded}; for each valid encoding (SM2 / SM9 ciphertexts also with a body of 32 and 64 bytes, the KDF block boundary) every truncation, every single-byte corruption (4 kinds per position) and trailing bytes; hex strings of every length 0..=140 and a non-hex character at every position; PEM truncations and corruptions; boundary private keys {0,1,n-2,n-1,n,2^256-1}: whatever the constructor accepts must sign, encrypt (also the empty message and 32- / 64-byte messages), decrypt and run a key agreement to completion; SM9 encrypt / sign / exchange with valid keys over lengths {1,31,32,33,64,96,128,255}. Each call runs in a child process under panic capture and a wall-clock watchdog. Oracle: outcome in {Ok, Err}; panic, overflow, abort and time-out are violations (whether an Ok was deserved is judged by C04/C06/C07/C19).");
     ctx.note_bound(format!("{} calls, watchdog {} s per call", cs.len(), limit.as_secs()));
     ctx.sample(serde_json::to_value(&cs[10]).unwrap());
     ctx.sample(serde_json::to_value(&cs[cs.len() - 1]).unwrap());
